@@ -27,9 +27,11 @@ res["suite_with_change"] = {"ok_lines": sum(l.startswith("test result: ok") for 
 demo = src + "/demo"
 meta0 = json.load(open(os.path.join(src, "meta.json")))
 # demonstrations that need a particular build configuration say so in meta.json ("demo_flags", "demo_env")
-dflags = os.environ.get("DEMO_FLAGS", meta0.get("demo_flags", ""))
+dflags = os.environ.get("DEMO_FLAGS", meta0.get("demo_flags", "") or "")
+# keep only real cargo flags (some agents wrote prose, or repeated --offline)
+dflags = " ".join(t for t in dflags.split() if t.startswith("--") and t != "--offline" and len(t) < 40)
 denv = dict(env, CARGO_TARGET_DIR=wt + "/target/demo")
-drf = os.environ.get("DEMO_RUSTFLAGS", meta0.get("demo_rustflags", ""))
+drf = os.environ.get("DEMO_RUSTFLAGS", meta0.get("demo_rustflags", "") or "")
 if drf:
     denv["RUSTFLAGS"] = drf
 rc1, _ = sh("cargo run --offline %s >/dev/null 2>&1" % dflags, cwd=demo, e=denv)
